@@ -397,6 +397,10 @@ func (n *PathSelectorNode) Field(fieldName string) (PathNode, bool, error) {
 }
 
 func (n *PathSelectorNode) Get(src, dst reflect.Value) error {
+	if !src.IsValid() {
+		// a nil interface value: there is nothing to select from
+		return fmt.Errorf("failed to get %s value from nil", n.selector)
+	}
 	switch src.Type().Kind() {
 	case reflect.Map:
 		iter := src.MapRange()
@@ -418,7 +422,7 @@ func (n *PathSelectorNode) Get(src, dst reflect.Value) error {
 		}
 	case reflect.Struct:
 		typ := src.Type()
-		for i := 0; i < typ.Len(); i++ {
+		for i := 0; i < typ.NumField(); i++ {
 			tag := runtime.StructTagFromField(typ.Field(i))
 			child, found, err := n.Field(tag.Key)
 			if err != nil {
@@ -474,6 +478,10 @@ func (n *PathIndexNode) Field(fieldName string) (PathNode, bool, error) {
 }
 
 func (n *PathIndexNode) Get(src, dst reflect.Value) error {
+	if !src.IsValid() {
+		// a nil interface value: there is nothing to select from
+		return fmt.Errorf("failed to get %s value from nil", fmt.Sprint(n.selector))
+	}
 	switch src.Type().Kind() {
 	case reflect.Array, reflect.Slice:
 		if src.Len() > n.selector {
@@ -517,6 +525,10 @@ func (n *PathIndexAllNode) Field(fieldName string) (PathNode, bool, error) {
 }
 
 func (n *PathIndexAllNode) Get(src, dst reflect.Value) error {
+	if !src.IsValid() {
+		// a nil interface value: there is nothing to select from
+		return fmt.Errorf("failed to get %s value from nil", "[*]")
+	}
 	switch src.Type().Kind() {
 	case reflect.Array, reflect.Slice:
 		var arr []interface{}
@@ -617,6 +629,10 @@ func valueToSliceValue(v interface{}) []interface{} {
 }
 
 func (n *PathRecursiveNode) Get(src, dst reflect.Value) error {
+	if !src.IsValid() {
+		// a nil interface value: there is nothing to select from
+		return fmt.Errorf("failed to get %s value from nil", n.selector)
+	}
 	if n.child == nil {
 		return fmt.Errorf("failed to get by recursive path ..%s", n.selector)
 	}
@@ -651,7 +667,7 @@ func (n *PathRecursiveNode) Get(src, dst reflect.Value) error {
 		return nil
 	case reflect.Struct:
 		typ := src.Type()
-		for i := 0; i < typ.Len(); i++ {
+		for i := 0; i < typ.NumField(); i++ {
 			tag := runtime.StructTagFromField(typ.Field(i))
 			child, found, err := n.match(tag.Key)
 			if err != nil {
